@@ -1,9 +1,10 @@
 import RaptorModel.Driver.Mat
 import RaptorModel.Model.Spmv
+import RaptorModel.Model.ParSpmv
 /-! Driver for C02: mat-vec results (sequential kernels of each format, distributed operations on
 every layout) against the product with the global matrix given by its triplets. Exact integers. -/
 namespace Raptor.Driver.C02
-open Raptor Raptor.Driver Raptor.Sparse Raptor.Spmv
+open Raptor Raptor.Driver Raptor.Sparse Raptor.Spmv Raptor.ParMat Raptor.ParSpmv
 
 def rdTrip : Rd (List (Entry Int)) := do
   let v ← rdVec
@@ -46,7 +47,107 @@ def check (op : String) : Rd Verdict := do
     return specFail (path ++ "/spec/value") s!"impl={showList out} expected={showList expected} x={showList x} b={showList b} A={showList (es.map fun e => s!"({e.1},{e.2.1},{e.2.2})")}" feats
   return ok feats
 
+/-! ### block-level cases: the real per-rank blocks and maps, the model of `Model/ParSpmv.lean` run on them -/
+
+def parseBlk (v : List Int) : Option (Blk Int) := do
+  let rec ents : Nat → List Int → Option (List (Entry Int) × List Int)
+    | 0, rest => some ([], rest)
+    | n+1, i :: j :: x :: rest => do
+        if i < 0 || j < 0 then none
+        let (es, r) ← ents n rest
+        pure ((i.toNat, j.toNat, x) :: es, r)
+    | _, _ => none
+  let lenList : List Int → Option (List Nat × List Int)
+    | n :: rest => if n < 0 || rest.length < n.toNat then none
+                   else if (rest.take n.toNat).any (· < 0) then none
+                   else some ((rest.take n.toNat).map Int.toNat, rest.drop n.toNat)
+    | [] => none
+  match v with
+  | nOn :: r0 =>
+    let (on, r1) ← ents nOn.toNat r0
+    match r1 with
+    | nOff :: r2 =>
+      let (off, r3) ← ents nOff.toNat r2
+      let (rowMap, r4) ← lenList r3
+      let (onMap, r5) ← lenList r4
+      let (offMap, _) ← lenList r5
+      pure { rowMap := rowMap, onColMap := onMap, offColMap := offMap, on := on, off := off }
+    | [] => none
+  | [] => none
+
+/-- decidable form of the hypotheses of `C02Par.parMult_global` / `parMultT_global` -/
+def blocksHyp (bs : List (Blk Int)) : Option String :=
+  let bad := bs.zipIdx.findSome? fun (B, r) =>
+    if B.on.any (fun e => e.1 ≥ B.rowMap.length || e.2.1 ≥ B.onColMap.length) then some s!"rank{r}: on-process entry outside its block"
+    else if B.off.any (fun e => e.1 ≥ B.rowMap.length || e.2.1 ≥ B.offColMap.length) then some s!"rank{r}: off-process entry outside its block / halo"
+    else none
+  match bad with
+  | some m => some m
+  | none =>
+    let rows := bs.flatMap (·.rowMap); let cols := bs.flatMap (·.onColMap)
+    if rows.eraseDups.length != rows.length then some "a global row is held by two local rows"
+    else if cols.eraseDups.length != cols.length then some "a global column is owned twice"
+    else none
+
+def canonE (es : List (Entry Int)) : List (Nat × Nat × Int) :=
+  let sorted := (es.toArray.qsort fun a b => a.1 < b.1 || (a.1 == b.1 && a.2.1 < b.2.1)).toList
+  let merged := sorted.foldr (fun e acc => match acc with
+    | (i, j, v) :: tl => if i == e.1 && j == e.2.1 then (i, j, v + e.2.2) :: tl else e :: acc
+    | [] => [e]) []
+  merged.filter fun e => e.2.2 != 0
+
+def opName : Nat → String
+  | 0 => "mult" | 1 => "mult_append" | 2 => "mult_T" | _ => "residual"
+
+def checkBlk : Rd Verdict := do
+  let k ← rdNat; let fmt ← rdNat; let tap ← rdNat; let nRows ← rdNat; let nCols ← rdNat
+  let es ← rdTrip; let x ← rdVec; let b ← rdVec
+  let np ← rdNat
+  let raws ← (List.range np).mapM fun _ => rdVec
+  let outs ← (List.range np).mapM fun _ => rdVec
+  let op := opName k
+  let path := s!"C02/par/blocks/{op}/{fmtName fmt}" ++ (if tap != 0 then "/tap" else "")
+  let feats := ["blocks", op, fmtName fmt, s!"np{np}", if tap != 0 then "tap" else "std",
+                if nRows == nCols then "square" else "rect"] ++ (if es.isEmpty then ["trivial"] else [])
+  let some bs := raws.mapM parseBlk | return specFail (path ++ "/spec/malformed_blocks") "negative index or truncated block dump" feats
+  let feats := feats ++ (if bs.any (fun B => !B.off.isEmpty) then ["halo"] else ["no_halo"]) ++
+               (if bs.any (fun B => B.rowMap.isEmpty) then ["emptyrank"] else ["fullranks"])
+  -- hypotheses of the lifting theorems on the real data
+  if let some m := blocksHyp bs then return specFail (path ++ "/spec/hypothesis") m feats
+  -- the blocks read through the maps are the assembled triplets
+  if canonE (image bs) != canonE es then
+    return specFail (path ++ "/spec/image") s!"blocks read through their maps differ from the triplets: image={showList ((canonE (image bs)).map toString)} triplets={showList ((canonE es).map toString)}" feats
+  let ownedCols := (bs.map fun B => B.onColMap.length).sum
+  if ownedCols != nCols then return ok (feats ++ ["trivial", "unowned_columns"])
+  -- rank by rank against the block-level model
+  let xlocs := bs.map fun B => gatherMap (if k == 2 then B.rowMap else B.onColMap) x
+  for (B, r) in bs.zipIdx do
+    let xloc := xlocs.getD r []
+    let halo := gatherMap B.offColMap x
+    let bl := gatherMap B.rowMap b
+    let model : List Int := match k with
+      | 0 => multBlk B xloc halo
+      | 1 => multAppendBlk B xloc halo bl
+      | 2 => multTBlk bs (fun B' => gatherMap B'.rowMap x) B
+      | _ => residualBlk B xloc halo bl
+    let got := outs.getD r []
+    if got != model then
+      return diff (path ++ "/model") s!"rank{r} impl={showList got} model={showList model}" feats
+  -- and the conclusion of the theorems: the gathered result is the global product
+  let expected : List Int := match k with
+    | 0 => appendE es x (zeros nRows)
+    | 1 => appendE es x b
+    | 2 => appendTE es x (zeros nCols)
+    | _ => appendNegE es x b
+  let rowsOrCols := bs.flatMap fun B => if k == 2 then B.onColMap else B.rowMap
+  let gathered := (outs.zip bs).flatMap fun p => p.1
+  let placed := (rowsOrCols.zip gathered).foldl (fun acc p => upd acc p.1 (fun _ => p.2)) (zeros expected.length)
+  if rowsOrCols.length != expected.length || placed != expected then
+    return specFail (path ++ "/spec/value") s!"impl={showList placed} expected={showList expected}" feats
+  return ok feats
+
 def run (op : String) (a : Array Int) : Verdict :=
-  (runRd (check op) a).getD (badCase "malformed")
+  if op == "blk" then (runRd checkBlk a).getD (badCase "malformed")
+  else (runRd (check op) a).getD (badCase "malformed")
 
 end Raptor.Driver.C02
